@@ -27,6 +27,10 @@ fn alphabet<F: Flt>() -> Vec<F> {
         F::from64(0.1),
         F::from64(0.1f32 as f64),
         F::from64(-1e15f32 as f64),
+        // single-precision values that need all nine significant digits
+        F::from64(1000.00006f32 as f64),
+        F::from64(0.0012345679f32 as f64),
+        F::from64(-1048577.1f32 as f64),
     ]
 }
 
@@ -323,13 +327,52 @@ fn run_all(st: &mut Stats) {
     check_type::<f64, Dual<Dual<Dual64, f64>, f64>>(st, false);
 }
 
+/// the single-precision types first (state shared between the monomorphisations of a generic helper -
+/// a `static` inside a generic function - is initialised by whichever float width comes first)
+fn run_all_f32_first(st: &mut Stats) {
+    check_type::<f32, Dual32>(st, false);
+    check_type::<f32, Dual2_32>(st, false);
+    check_type::<f32, Dual3_32>(st, false);
+    check_type::<f32, HyperDual32>(st, false);
+    check_type::<f32, HyperHyperDual32>(st, false);
+    check_type::<f64, Dual64>(st, false);
+    check_type::<f64, Dual2_64>(st, false);
+    check_type::<f64, Dual3_64>(st, false);
+    check_type::<f64, HyperDual64>(st, false);
+    check_type::<f64, HyperHyperDual64>(st, false);
+    check_type::<f64, Dual<Dual64, f64>>(st, false);
+}
+
 fn main() {
     quiet_panics();
+    if std::env::args().nth(1).as_deref() == Some("f32first") {
+        // history run in a process of its own: prints one line per violation class
+        let mut stats = Stats::default();
+        let _ = guarded(|| run_all_f32_first(&mut stats));
+        for (sig, (n, v)) in &stats.violations {
+            println!("HISTORY\t{sig}\t{n}\t{}", v.what.replace('\n', " "));
+        }
+        println!("history: evaluations={}", stats.evaluations);
+        std::process::exit(0);
+    }
     let cli = cli();
     let start = Instant::now();
     let mut stats = Stats::default();
     if let Err(m) = guarded(|| run_all(&mut stats)) {
         stats.violation(Violation { sig: "serde panic".into(), case: json!({}), what: format!("panicked: {m}") });
+    }
+    // the other order of the float widths, in a fresh process
+    match std::process::Command::new(std::env::current_exe().unwrap()).arg("f32first").output() {
+        Ok(o) if o.status.success() && String::from_utf8_lossy(&o.stdout).contains("history: evaluations=") => {
+            for line in String::from_utf8_lossy(&o.stdout).lines() {
+                let f: Vec<&str> = line.split('\t').collect();
+                if f.len() == 4 && f[0] == "HISTORY" {
+                    stats.evaluations += 1;
+                    stats.violation(Violation { sig: format!("{} (single precision first)", f[1]), case: json!({"order": "single-precision types first, in a fresh process", "class": f[1], "cases": f[2]}), what: format!("only when the single-precision types are handled first: {}", f[3]) });
+                }
+            }
+        }
+        other => machinery(&format!("history subprocess failed: {other:?}")),
     }
     if let Some(path) = &cli.replay {
         let v = read_replay(path);
@@ -347,7 +390,7 @@ fn main() {
         mode: cli.mode,
         seed: cli.seed,
         start,
-        rule: "Dual, Dual2, Dual3, HyperDual, HyperHyperDual over f32 and f64 and the nestings Dual<Dual>, Dual<Dual<Dual>>, Dual2<Dual>, Dual3<HyperDual>, HyperDual<Dual2>, HyperHyperDual<Dual> x parts from {0, -0, 1.5, -2.25, 1/3, pi, smallest denormal, MAX, -MIN_POSITIVE, 0.1, 0.1f32 and -1e15f32 widened}: full product for <= 4 parts, each part sweeping the alphabet with pairwise distinct other parts beyond; through serde_json::Value (bit-exact), through JSON text for every value whose bare float survives the text format bit for bit, with the field order read off the serialized text, embedded in a user struct with #[serde(flatten)], and with the field list announced to the Deserializer compared with the stored members. Non-trivial: every value.".into(),
+        rule: "Dual, Dual2, Dual3, HyperDual, HyperHyperDual over f32 and f64 and the nestings Dual<Dual>, Dual<Dual<Dual>>, Dual2<Dual>, Dual3<HyperDual>, HyperDual<Dual2>, HyperHyperDual<Dual> x parts from {0, -0, 1.5, -2.25, 1/3, pi, smallest denormal, MAX, -MIN_POSITIVE, 0.1, 0.1f32 and -1e15f32 widened, three single-precision values that need nine digits}: full product for <= 4 parts, each part sweeping the alphabet with pairwise distinct other parts beyond; through serde_json::Value (bit-exact), through JSON text for every value whose bare float survives the text format bit for bit, with the field order read off the serialized text, embedded in a user struct with #[serde(flatten)], and with the field list announced to the Deserializer compared with the stored members; the whole enumeration (per-part sweeps) also in a fresh process that handles the single-precision types first. Non-trivial: every value.".into(),
         assumptions: vec!["serde_json::Value holds numbers as f64, so f32 and f64 parts are represented exactly; JSON text is only used for values it represents exactly, decided on the bare float".into()],
         extra: json!({}),
         exhaustive: true,
